@@ -448,7 +448,9 @@ def gen_xinherit_case(rng, name, fault=None):
         c0.attrs.append(G.Attr("nosuch_xr", ("S", "INTEGER"), redecl_of=vis)); uses_qual = True
         cls, verdict = "bad-redeclaration", "reject"
     elif fault == "unique_no_attr":
-        c0.uniques.append(G.Unique(f"ur{len(c0.uniques) + 2}", None, "nosuch_xu"))
+        # (in front: a plain reference AFTER a qualified reference to a redeclared attribute is the shape of finding
+        # unique-stale-unqualified-lookup-crash, which has its own class)
+        c0.uniques.insert(0, G.Unique(f"ur{len(c0.uniques) + 2}", None, "nosuch_xu"))
         cls, verdict = "undefined-attribute", "reject"
     elif fault == "unique_bad_qual":
         c0.uniques.append(G.Unique(f"ur{len(c0.uniques) + 2}", "nosuch_xq", low.attrs[0].name))
@@ -463,9 +465,7 @@ def gen_xinherit_case(rng, name, fault=None):
     f = G.File(order)
     c = make_case(name, f, cls, [], verdict, note=note + (f"; fault: {fault}" if fault else ""))
     c.multi = True
-    c.oracle_only = True
-    if verdict == "accept" and alias and uses_qual:
-        c.finding_key = "alias-group-qualifier-rejected"
+    # (cross-schema inheritance is in the Lean model since deepening round 2: compared with the model like every other stream)
     return c
 
 
